@@ -36,10 +36,12 @@ static inline void myth_rwbarrier() {
 static inline void myth_rbarrier() {
   int x=0, y=0;
   asm volatile("xchgl %0,%1":"=r"(x):"m"(y),"0"(x):"memory");
+  MYTH_VERIF_FENCE(MVF_FULL);
 }
 //Guarantees former writes to be executed before this
 static inline void myth_wbarrier() {
   asm volatile("":::"memory");
+  MYTH_VERIF_FENCE(MVF_WRITE);
 }
 //rbarrier+wbarrier
 static inline void myth_rwbarrier() {
